@@ -15,12 +15,14 @@
 (***************************************************************************)
 EXTENDS HpoCompare, TLC, Json
 
-CONSTANT MaxEdits
+CONSTANTS MaxEdits,
+          LongNames    \* TRUE: the two names are 301 bytes long and differ in their LAST byte only; the pairs are then realised
+                       \* through hp.obo + annotation files (a binary file cannot hold such names), term edits only
 
 VARIABLES cur, edits
 
-NameA == <<<<65>>, <<98>>>>                      \* "Ab"
-NameB == <<<<65>>, <<58>>, <<32>>, <<66>>>>      \* "A: B"
+NameA == IF LongNames THEN [i \in 1..300 |-> <<120>>] \o <<<<65>>>> ELSE <<<<65>>, <<98>>>>                      \* "Ab"
+NameB == IF LongNames THEN [i \in 1..300 |-> <<120>>] \o <<<<66>>>> ELSE <<<<65>>, <<58>>, <<32>>, <<66>>>>      \* "A: B"
 Names == {NameA, NameB}
 EKinds == {"gene", "omim", "orpha"}
 
@@ -31,7 +33,7 @@ Base ==
     repl  |-> [t \in {1, 2, 3, 4, 5, 118} |-> IF t = 4 THEN 3 ELSE 0],
     par   |-> [t \in {1, 2, 3, 4, 5, 118} |-> CASE t = 118 -> {1} [] t = 2 -> {118} [] t = 3 -> {2, 118} [] OTHER -> {}],
     recs  |-> [k \in EKinds |->
-                 CASE k = "gene"  -> (7 :> [name |-> NameA, hpos |-> {2, 3}]) @@ (8 :> [name |-> NameB, hpos |-> {}])
+                 CASE k = "gene"  -> (7 :> [name |-> NameA, hpos |-> {2, 3}]) @@ (8 :> [name |-> NameB, hpos |-> IF LongNames THEN {118} ELSE {}])
                    [] k = "omim"  -> (7 :> [name |-> NameA, hpos |-> {3}])
                    [] OTHER       -> (7 :> [name |-> NameA, hpos |-> {118}])] ]
 
@@ -78,13 +80,13 @@ Next ==
   \/ \E t \in cur.terms : Edit("flip_obsolete", t, 0, "", FlipObs(t))
   \/ \E t \in cur.terms : \E r \in ({0} \cup cur.terms) \ {t, cur.repl[t]} : Edit("set_replacement", t, r, "", SetRepl(t, r))
   \/ \E t \in {5} \ cur.terms : Edit("add_term", t, 0, "", AddTerm(t))
-  \/ \E t \in cur.terms \ {1, 118} : Edit("remove_term", t, 0, "", DelTerm(t))
-  \/ \E k \in EKinds : \E x \in DOMAIN cur.recs[k] :
+  \/ ~LongNames /\ \E t \in cur.terms \ {1, 118} : Edit("remove_term", t, 0, "", DelTerm(t))       \* (would empty a record: not expressible in text files)
+  \/ ~LongNames /\ \E k \in EKinds : \E x \in DOMAIN cur.recs[k] :
         \/ \E t \in cur.terms \ cur.recs[k][x].hpos : Edit("annotate", x, t, k, RecAddTerm(k, x, t))
         \/ \E t \in cur.recs[k][x].hpos : Edit("unannotate", x, t, k, RecDelTerm(k, x, t))
         \/ Edit("rename_record", x, 0, k, RecRename(k, x))
         \/ Edit("remove_record", x, 0, k, RecDel(k, x))
-  \/ \E k \in EKinds : \E x \in {9} \ DOMAIN cur.recs[k] : Edit("add_record", x, 0, k, RecAdd(k, x))
+  \/ ~LongNames /\ \E k \in EKinds : \E x \in {9} \ DOMAIN cur.recs[k] : Edit("add_record", x, 0, k, RecAdd(k, x))
 Spec == Init /\ [][Next]_<<cur, edits>>
 
 -----------------------------------------------------------------------------
@@ -113,5 +115,7 @@ SingleEditVisible ==
     /\ e[1] = "add_record" => Cmp[e[4]].added = <<e[2]>>
     /\ e[1] = "remove_record" => Cmp[e[4]].removed = <<e[2]>>
 
-Emit == PrintT(<<"REPLAY", ToJson([ edits |-> edits, lbytes |-> Encode(L, 3), rbytes |-> Encode(R, 3), cmp |-> Cmp ])>>)
+Emit == IF LongNames
+          THEN PrintT(<<"REPLAY", ToJson([ edits |-> edits, via |-> "obo", lo |-> L, ro |-> R, cmp |-> Cmp ])>>)
+          ELSE PrintT(<<"REPLAY", ToJson([ edits |-> edits, lbytes |-> Encode(L, 3), rbytes |-> Encode(R, 3), cmp |-> Cmp ])>>)
 =============================================================================
